@@ -785,12 +785,12 @@ class RewriteRuleSet:
 
                 # A replacement may return one of its inputs. replace_nodes_and_values gives
                 # every new output the name of the value it replaces, which would rename a
-                # graph input: return a graph input through an Identity node instead.
-                if any(v.is_graph_input() for v in delta.new_outputs):
+                # graph input or output: return such a value through an Identity node instead.
+                if any(v.is_graph_input() or v.is_graph_output() for v in delta.new_outputs):
                     new_nodes = list(delta.new_nodes)
                     new_outputs = list(delta.new_outputs)
                     for i, v in enumerate(new_outputs):
-                        if v.is_graph_input():
+                        if v.is_graph_input() or v.is_graph_output():
                             identity = ir.Node("", "Identity", [v])
                             new_nodes.append(identity)
                             new_outputs[i] = identity.outputs[0]
